@@ -23,7 +23,7 @@ CHECKS = {
  'C06': dict(level='model_checking', ref='3/C06', technique='TLA+ model of the CommonMark 0.30 delimiter algorithm (Emphasis.tla) explored exhaustively by TLC; every behaviour replayed into the real parser (spec -> code); InlineLinks.tla (brackets interleaved with the algorithm) and InlineScan.tla (escapes, code spans, autolinks, raw HTML tags protecting what they cover, EXTENDS Emphasis) extend it',
    text='TLC runs the delimiter algorithm on every string over {a,space,*,_,.} up to length 7/9 and over {a,*},{a,_} up to 12/14, checks laminarity and stack invariants on the model, and exports the expected structure; the harness compares the real HTML for each string. Random wide-alphabet strings are judged through the same model in batch. InlineScan adds every string up to length 5/6 over four raw alphabets with backslash, backtick, angle brackets, colon, slash, underscore (TLC checks that the scanned segments tile the text and that no emphasis boundary falls inside a protected segment).',
    note='Trusted: the transcription of the CommonMark algorithm in Emphasis.tla (validated against the corpus through the unchanged parser and by review), the class table for wide characters, observation through an ATX heading.'),
- 'C07': dict(level='model_checking', ref='3/C07', technique='TLA+ typing model (DocGen.tla, definitions and references enabled) with first-definition-wins resolution in the specification; exhaustive placements within bounds + simulation; replayed into the real parser (spec -> code); plus the definition alphabets of BlockParse.tla (definitions read from complete paragraphs: destination or title on the next line, unclosed titles, underlines and block starts below a definition), HTML and definition table compared',
+ 'C07': dict(level='model_checking', ref='3/C07', technique='TLA+ typing model (DocGen.tla, definitions and references enabled) with first-definition-wins resolution in the specification; exhaustive placements within bounds + simulation; replayed into the real parser (spec -> code); plus the definition alphabets of BlockParse.tla (definitions read from complete paragraphs: destination or title on the next line, unclosed titles, underlines and block starts below a definition, escapes and character references), HTML and definition table compared; plus RefLinks.tla (the reference forms as the procedure look-for-link-or-image resolves them, every text up to 7/8 characters over a bracket alphabet, replayed into the real parser)',
    text='All documents of <= 3 blocks at nesting <= 1 over paragraphs, definitions, quotes and list items (every placement of definitions relative to uses) and simulated larger ones; the specification resolves references (FirstWins invariant checked by TLC) and writes the expected HTML and definition table; the harness compares real HTML and Document.footnotes.',
    note='Trusted: the label base table of DocGen.tla (case / inner-whitespace variants, near-duplicates); Unicode case folding is outside the model.'),
  'C08': dict(level='exploration', ref='3/C08', technique='TLA+ acceptor for the HTML event stream (HtmlOut.tla: element stack, fixed vocabulary, attribute/text safety classes, escape image table) judged by TLC on recorded renderer outputs (trace validation)',
